@@ -364,6 +364,24 @@ def handleJson (btree : Bool) (mode : String) (desc : String) (impl : String) : 
         s!"{hexOfStr t}\t{back}\t{implV}"
   | _ => "bad-case\t-\t-"
 
+/-- `reg <n> <order>`: handles `1..n` are inserted (a fresh thread's counter starts at 0), then removed in
+`order` (0-based indices into the inserted values); prints the handles and what each remove found -/
+def handleReg (body : String) : String :=
+  match toks body with
+  | [ns, os] =>
+    match ns.toNat? with
+    | none => "bad-case\tbad-case"
+    | some n =>
+      let order : List Nat := if os == "-" then [] else (os.splitOn ",").filterMap String.toNat?
+      let handles := (List.range n).map (· + 1)
+      let ops : List RegOp := handles.map (fun h => RegOp.ins h (.obj h)) ++ order.map (fun i => RegOp.rem (i + 1))
+      let res := (runReg ops Registry.empty).2
+      let show1 : Option V → String
+        | some (.obj i) => toString i
+        | _ => "_"
+      s!"{",".intercalate (handles.map toString)}\t{",".intercalate (res.map show1)}"
+  | _ => "bad-case\tbad-case"
+
 def handleJparse (h : String) : String :=
   match strOfHex h with
   | none => "bad-case"
@@ -381,6 +399,7 @@ def handle (btree : Bool) (line : String) : String :=
     match (case.drop 5).toString.splitOn " " with
     | mode :: rest => handleJson btree mode (" ".intercalate rest) (fields.getD 1 "")
     | [] => "bad-case\t-\t-"
+  else if case.startsWith "reg " then handleReg (case.drop 4).toString
   else if case.startsWith "ser " then handleSer btree (case.drop 4).toString
   else if case.startsWith "lde " then handleLde btree (case.drop 4).toString
   else if case.startsWith "jparse " then handleJparse (case.drop 7).toString
